@@ -57,12 +57,12 @@ ASSUMPTIONS = [
     "values that are Mapping but not dict are not generated",
 ]
 
-KEYS = ["a", "b", "opts", "x.y"]
+KEYS = ["a", "b", "opts", "x.y", "x"]  # "x" and "x.y" side by side: a dotted key is a key of its own
 
 
 def gen_value(rng: Any, depth: int = 0) -> Any:
     if depth < 2 and rng.random() < 0.35:
-        return {k: gen_value(rng, depth + 1) for k in rng.sample(["p", "q", "r.s"], rng.randint(0, 3))}
+        return {k: gen_value(rng, depth + 1) for k in rng.sample(["p", "q", "r.s", "r"], rng.randint(0, 3))}
     return rng.choice([0, 1, "s", None, [1, 2], True])
 
 
